@@ -60,7 +60,7 @@ def judge(path):
                         out["viol"].append(("generate-content-differs:" + key, "header/payload of the reused builder's token differ from the fresh twin's", dict(history=h[-4:])))
                     elif det and not same:
                         out["viol"].append(("generate-token-differs:" + key, "deterministic-alg token differs from the fresh twin's", dict(history=h[-4:])))
-                    elif (cfg != 0 or act == 5) and (refr != 1 or reff != 1):
+                    elif act != 6 and ((cfg % 10) != 0 or (act == 5 and cfg < 10)) and (refr != 1 or reff != 1):
                         out["viol"].append(("generate-token-not-verifiable:" + key, "token not reference-verifiable (reused %d, fresh %d)" % (refr, reff), dict(history=h[-4:])))
                 elif bool(er) != bool(ef):
                     out["viol"].append(("generate-errorflag-differs:" + key, "error flags differ", dict(history=h[-4:])))
